@@ -422,7 +422,8 @@ func checkC11(c *Check) {
 			continue
 		}
 		c.Funcs[r.g.name] = true
-		n := emitObls(c, r.coll, "", map[string]string{"nopanic": "R11.1", "count": "R11.2", "write": "R11.3", "zero": "R11.4", "final": "R11.5", "uncovered": "R11.8"})
+		n := emitObls(c, r.coll, "", map[string]string{"nopanic": "R11.1", "count": "R11.2", "write": "R11.3", "zero": "R11.4", "final": "R11.5", "uncovered": "R11.8", "offset": "R11.12", "lenbyte": "R11.12"})
+		c.RuleDoc["R11.12"] = "= R10.1/R10.5: a positive count stands for a block whose offsets and length bytes are in range (what is reported as compressed is decodable)"
 		if n < 8 {
 			c.Fail("R11.3", r.g.name+"#floor", "", "destination accesses of "+r.g.name+" are resolved", fmt.Sprintf("only %d obligations recorded", n))
 		}
@@ -626,6 +627,48 @@ func portableDecoderRulesImpl(c *Check, prefix string) {
 			}
 			y := g.val(a, b.Y)
 			g.coll.check("offset", g.siteKey(in, "offset-distance"), g.prog.InstrPos(in), "the 16-bit match offset is at least 1 where it is subtracted from a position", a.st.minGE(y, qi(1)), func() string { return "offset may be 0 here" })
+		},
+		mustNotPanic: func(in ssa.Instruction) bool {
+			// a slice that only feeds copies whose count is not consumed (the over-copying shortcuts)
+			sl, ok := in.(*ssa.Slice)
+			if !ok || sl.Referrers() == nil || len(*sl.Referrers()) == 0 {
+				return false
+			}
+			constWidth := func(v ssa.Value) bool {
+				x, isS := v.(*ssa.Slice)
+				if !isS || x.High == nil {
+					return false
+				}
+				if _, isK := constUint(x.High); isK && x.Low == nil {
+					return true
+				}
+				if bo, isB := x.High.(*ssa.BinOp); isB && bo.Op == token.ADD && x.Low != nil {
+					for _, pr := range [][2]ssa.Value{{bo.X, bo.Y}, {bo.Y, bo.X}} {
+						if _, isK := constUint(pr[1]); isK && pr[0] == x.Low {
+							return true
+						}
+					}
+				}
+				return false
+			}
+			fixed := false
+			for _, r := range *sl.Referrers() {
+				if _, isDbg := r.(*ssa.DebugRef); isDbg {
+					continue
+				}
+				cc, isCopy := isBuiltinCall(r, "copy")
+				if !isCopy || cc == nil {
+					return false
+				}
+				if v, isV := r.(ssa.Value); !isV || (v.Referrers() != nil && len(*v.Referrers()) > 0) {
+					return false
+				}
+				// a copy of a fixed number of bytes (16, 18): more than the sequence needs
+				if len(cc.Args) == 2 && (constWidth(cc.Args[0]) || constWidth(cc.Args[1])) {
+					fixed = true
+				}
+			}
+			return fixed
 		},
 		onCopy: func(g *goProg, a *AbsState, call *ssa.Call, n Lin, dstOff, dstLen, srcOff, srcLen Lin, dstRoot, srcRoot string, srcHigh bool) {
 			// A copy within one buffer has memmove semantics, while an LZ4 match is defined byte by
@@ -838,13 +881,13 @@ func portableDecoderRulesImpl(c *Check, prefix string) {
 	case prefix == "R03":
 		emitObls(c, coll, "go|", map[string]string{"result": "R03.6", "write": "R03.6"})
 	case prefix == "R04":
-		emitObls(c, coll, "go|", map[string]string{"offset": "R04.1", "consumed": "R04.2", "nonempty": "R04.2", "overlap": "R04.7", "errexit": "R04.6"})
+		emitObls(c, coll, "go|", map[string]string{"offset": "R04.1", "consumed": "R04.2", "nonempty": "R04.2", "overlap": "R04.7", "shortcut": "R04.7", "errexit": "R04.6"})
 		c.RuleDoc["R04.7"] = "portable decoder: same-buffer copies whose count is not the cursor advance do not overlap their source"
 		c.RuleDoc["R04.9"] = "portable decoder: a length extension ends only with a byte below 255 (or an error): the loops that add source bytes to a length have no other exit"
 		ruleExtensionLoops(c, p, fn, "R04.9")
 		rulePortableEndsAfterMatch(c, p, fn, "R04.4")
 	default:
-		emitObls(c, coll, "go|", map[string]string{"result": prefix, "offset": prefix, "consumed": prefix, "nonempty": prefix, "overlap": prefix, "errexit": prefix})
+		emitObls(c, coll, "go|", map[string]string{"result": prefix, "offset": prefix, "consumed": prefix, "nonempty": prefix, "overlap": prefix, "shortcut": prefix, "errexit": prefix})
 		if prefix != "R03" {
 			ruleExtensionLoops(c, p, fn, prefix)
 			rulePortableEndsAfterMatch(c, p, fn, prefix)
